@@ -46,7 +46,7 @@ def max_bipartite_matching2(bigraph):
     :complexity: `O(|V|*|E|)`
     """
     nU = len(bigraph)
-    nV = max(max(adjlist, default=-1) for adjlist in bigraph) + 1
+    nV = max((max(adjlist, default=-1) for adjlist in bigraph), default=-1) + 1
     match = [None] * nV
     for u in range(nU):
         augment(u, bigraph, [False] * nV, match)
